@@ -43,7 +43,8 @@ mut("c02-clip-off-by-one", "C02", WIN, "            if len(line) > width:\n     
     "            if len(line) > width:\n                line = line[: width - 1]")
 mut("c03-utf8-pending-off-by-one", "C03", EV, "(o & 0b11110000 == 0b11100000 and len(seq) < 3)",
     "(o & 0b11110000 == 0b11100000 and len(seq) < 2)")
-mut("c03-full-flag-wrong", "C03", INP, "full=len(self.unprocessed_bytes) == 0,", "full=len(self.unprocessed_bytes) <= 1,")
+mut("c03-full-flag-wrong", "C03", INP, "                    self._nonblocking_read(events.MAX_KEYPRESS_SIZE)\n                    if not self.unprocessed_bytes:",
+    "                    self._nonblocking_read(events.MAX_KEYPRESS_SIZE)\n                    if len(self.unprocessed_bytes) <= 1:")
 mut("c03-prefixes-miss-last", "C03", EV, "            for i in range(1, len(k)):\n                KEYMAP_PREFIXES.add(k[:i])",
     "            for i in range(1, len(k) - 1):\n                KEYMAP_PREFIXES.add(k[:i])")
 mut("c04-region-pad-boundary", "C04", FS, "        if len(self) > endindex:\n            fs = fs +", "        if len(self) >= endindex:\n            fs = fs +")
@@ -73,14 +74,14 @@ mut("c12-sigint-handler-not-restored-on-exception", "C12", INP,
 mut("c13-append-in-place", "C13", FS, "        if isinstance(other, FmtStr):\n            return FmtStr(*(self.chunks + other.chunks))\n        elif isinstance(other, (bytes, str)):\n            return FmtStr(*(self.chunks + [Chunk(other)]))",
     "        if isinstance(other, FmtStr):\n            return FmtStr(*(self.chunks + other.chunks))\n        elif isinstance(other, (bytes, str)):\n            result = FmtStr()\n            result.chunks = self.chunks if len(self.chunks) > 2 else list(self.chunks)\n            result.chunks.append(Chunk(other))\n            return result")
 mut("c14-old-attribute-wins", "C14", FS, "return FrozenAttributes(chain(self.items(), dictlike.items()))", "return FrozenAttributes(chain(dictlike.items(), self.items()))")
-mut("c15-list-results-lose-formatting", "C15", FS, "                return [fmtstr(x, **self.shared_atts) for x in result]", "                return [fmtstr(x) for x in result]")
+mut("c15-list-results-lose-formatting", "C15", FS, "                    FmtStr(Chunk(x, shared)) if isinstance(x, str) else x", "                    FmtStr(Chunk(x)) if isinstance(x, str) else x")
 mut("c16-fit-test-off-by-one", "C16", FS, "        if len(lines[-1]) + len(word) < columns:", "        if len(lines[-1]) + len(word) <= columns:")
 mut("c17-fallback-keeps-escapes", "C17", FS, "                return FmtStr(Chunk(remove_ansi(s)))", "                return FmtStr(Chunk(s))")
 mut("c18-extra-non-greedy", "C18", WIN, 'r"(?P<extra>.*)"', 'r"(?P<extra>.*?)"')
 mut("c18-nested-query-forgotten", "C18", WIN, "            if not self.another_sigwinch:\n                return cursor_dy", "            return cursor_dy")
 mut("c19-eq-on-text", "C19", FS, "            return str(self) == str(other)\n        return NotImplemented", "            return self.s == (other.s if isinstance(other, FmtStr) else other)\n        return NotImplemented")
 mut("c20-curses-mode-cuts-differently", "C20", EV, "    if full and key_known:\n        return _key_name(seq, encoding, keynames)", "    if full and key_known and not (keynames == Keynames.CURSES and seq in KEYMAP_PREFIXES and len(seq) > 2):\n        return _key_name(seq, encoding, keynames)")
-mut("c20-config-meta-uppercased", "C20", "curtsies/configfile_keynames.py", '                "<Esc+%s>" % key[2:],', '                "<Esc+%s>" % key[2:].upper(),')
+mut("c20-config-meta-uppercased", "C20", "curtsies/configfile_keynames.py", '                "<Esc+%s>" % ESC_NAMES.get(key[2:], key[2:]),', '                "<Esc+%s>" % ESC_NAMES.get(key[2:], key[2:]).upper(),')
 
 
 def sh(cmd, cwd=None, env=None, timeout=1800):
